@@ -171,6 +171,26 @@ fn run(w: &mut World, o: &Op) -> Outcome {
             x.set_element_name(a[0], n);
             ok()
         }
+        "element_mut_set_name" => {
+            let n = mkname(x);
+            match x.element_mut(a[0]) {
+                Some(el) => {
+                    el.set_name(n);
+                    ok()
+                }
+                None => none(),
+            }
+        }
+        "pi_set_target" => {
+            let n = mkname(x);
+            match x.processing_instruction_mut(a[0]) {
+                Some(pi) => match pi.set_target::<String>(n) {
+                    Ok(()) => ok(),
+                    Err(_) => err(),
+                },
+                None => none(),
+            }
+        }
         "text_set" => match x.text_mut(a[0]) {
             Some(t) => {
                 t.set(o.s.clone());
@@ -732,7 +752,11 @@ pub fn random_op(w: &World, r: &mut Rng, profile: &str) -> Op {
         return match r.below(7) {
             0 => Op::new("text_set", &[a0]).s(&rand_text(r, ws)),
             1 => Op::new("comment_set", &[a0]).s(if r.chance(1, 4) { "a--b" } else { "k" }),
-            2 => Op::new("pi_set_data", &[a0]).s("z").b(r.chance(1, 2)),
+            2 => match r.below(3) {
+                0 => Op::new("pi_set_target", &[a0]).name(&ns, &ln),
+                1 => Op::new("element_mut_set_name", &[a0]).name(&ns, &ln),
+                _ => Op::new("pi_set_data", &[a0]).s(if r.chance(1, 4) { "" } else { "z" }).b(r.chance(1, 2)),
+            },
             3 => Op::new("attr_set_value", &[a0]).s(&rand_text(r, false)),
             4 => Op::new("nsnode_set_namespace", &[a0]).pxuri("", pk(r, &NSS)),
             5 => Op::new("text_content_set", &[a0]).s(&rand_text(r, ws)),
@@ -832,6 +856,8 @@ pub fn all_ops(w: &World, full: bool) -> Vec<Op> {
             v.push(Op::new("comment_set", &[x]).s("a--b"));
             v.push(Op::new("comment_set", &[x]).s("k"));
             v.push(Op::new("pi_set_data", &[x]).s("z").b(true));
+            v.push(Op::new("pi_set_target", &[x]).name("", "c"));
+            v.push(Op::new("element_mut_set_name", &[x]).name("u1", "c"));
             v.push(Op::new("nsnode_set_namespace", &[x]).pxuri("", "u2"));
             v.push(Op::new("set_element_name", &[x]).name("u1", "b"));
             for op in [
